@@ -16,7 +16,9 @@ from checks import e2e_common
 
 TIE_PARTS = ["IstioModel.C01.GenTie" + x for x in ("T1", "T2", "T3", "T4", "T5", "T6", "T7", "P1", "P2", "P3", "P4", "P5", "P6", "S")]
 THEOREMS = TIE_PARTS + ["IstioModel.C01.GenTie", "IstioModel.C01.Theorems", "IstioModel.C01.NarrowTheorems", "IstioModel.C01.WorkloadTheorems",
-                        "IstioModel.C01.ProtocolTheorems", "IstioModel.C01.ProtocolV2Theorems", "IstioModel.C01.Instantiation"]
+                        "IstioModel.C01.ProtocolTheorems", "IstioModel.C01.ProtocolV2Theorems", "IstioModel.C01.ProtocolV2On",
+                        "IstioModel.C01.ProtocolV3", "IstioModel.C01.ProtocolWds", "IstioModel.C01.Instantiation",
+                        "IstioModel.C01.InstantiationExample"]
 GENERATED = "IstioModel/Generated/C01Table.lean"
 
 
@@ -144,6 +146,12 @@ def converge_verdicts(ctx, case_list, tag):
     return v, log
 
 
+def obj_class(obj_id):
+    """The class of a changed object in a fingerprint: the kind prefix of Istio config ids (`dr-a` -> `dr`); the whole id for
+    the Kubernetes / Gateway API / ambient objects and the MeshConfig, whose prefixes (`k`, `kg`, `am`) say nothing."""
+    return obj_id if obj_id.split("-")[0] in ("k", "kg", "am", "mesh") else obj_id.split("-")[0]
+
+
 def converge_fingerprint(case, verdict):
     """Stable name of the failing input class: clause, the set of (xDS type, kind of difference) of the differing
     resources and - unless every difference is of a classified kind such as `stale-san` - the kind of the object changed
@@ -167,13 +175,15 @@ def converge_fingerprint(case, verdict):
         if 0 < after <= len(steps):
             toks = steps[after - 1].split()
             if toks[0] == "step":
-                changed = ":" + toks[1] + "-" + toks[2].split("-")[0]  # object ids look like `dr-a`: the prefix is the kind
+                changed = ":" + toks[1] + "-" + obj_class(toks[2])
     return "converge:%s:%s%s" % (clause, "+".join(sorted(kinds)) or "-", changed)
 
 
 # differences of a classified kind are recorded findings; the harness attaches the kind only under the conditions that
 # make a difference THAT finding (see classify / relabel* in harness/c01/converge.go)
-SOFT_KINDS = ("stale-san", "stale-mx", "stale-provider-unimported", "stale-sidecar-switches-service")
+SOFT_KINDS = ("stale-san", "stale-mx", "stale-provider-unimported", "stale-sidecar-switches-service", "stale-dns-last-workload")
+# finding 7 (DNS ServiceEntry with workloadSelector loses its last workload) under its one fingerprint, whichever stream shows it
+DNS_LAST_WORKLOAD = "converge:stale-vs-cold-start:CDS:stale-dns-last-workload"
 # a finding that another stream of C01 already records keeps that fingerprint
 SAME_FINDING = {"stale-sidecar-switches-service": "e2e:long-ne-fresh:eds-not-pushed:sidecar-switches-service-for-host"}
 
@@ -252,9 +262,10 @@ def after_step(verdict):
     return 0
 
 
-def run_rebuild(ctx, nsteps):
-    """Stream `rebuild` (RebuildOK on the real code): walks through the grammar on one real server; after every step the real
-    generators under the server's own, partially rebuilt PushContext vs under a from-scratch PushContext of the same env."""
+def prepare_rebuild(ctx, nsteps):
+    """Stream `rebuild` (RebuildOK on the real code): walks through the grammar on one real server with connected clients;
+    after every step the real generators under the server's own, partially rebuilt PushContext (without and with the
+    server's xDS cache) vs under a from-scratch PushContext of the same env."""
     st = {"cases": 0, "ops": 0, "agree": True}
     ctx.streams["rebuild"] = st
     g = os.path.join(ctx.work, "rebuild.gen.ops")
@@ -263,9 +274,20 @@ def run_rebuild(ctx, nsteps):
     rc, log = ctx.harness("gen", "rebuild", ctx.seed, nsteps, g)
     if rc != 0 or not os.path.exists(g):
         ctx.tie_broken("harness-gen:rebuild", log)
+        return None
+    return {"kind": "rebuild", "st": st, "cases": split_cases(ctx.read_lines(g))}
+
+
+def run_rebuild(ctx, nsteps):
+    job = prepare_rebuild(ctx, nsteps)
+    execute(ctx, job)
+    finish_rebuild(ctx, job)
+
+
+def finish_rebuild(ctx, job):
+    if job is None:
         return
-    cases = split_cases(ctx.read_lines(g))
-    verdicts, log = rebuild_verdicts(ctx, cases, "run")
+    st, cases, verdicts, log = job["st"], job["cases"], job.get("verdicts"), job.get("log", "")
     if verdicts is None:
         ctx.tie_broken("stream-run:rebuild", "the rebuild oracle did not complete:\n" + log[-3000:])
         st["agree"] = False
@@ -278,13 +300,24 @@ def run_rebuild(ctx, nsteps):
         if not v.startswith("FAIL"):
             continue
         ctx.log("rebuild walk %d: %s" % (i, v[:400]))
+        toks = v.split()[2].split(",") if len(v.split()) > 2 else []
+        if toks and all(t.endswith(":stale-dns-last-workload") for t in toks):
+            # the walk itself is fine; it ran over the trigger of recorded finding 7 (set aside by the harness, reported here)
+            st["agree"] = False
+            ctx.violation(DNS_LAST_WORKLOAD, "rebuild walk: the server's PushContext still generates the cluster of a DNS ServiceEntry "
+                          "whose last selected workload went away: " + v.split(" ||")[0][:300],
+                          {"stream": "rebuild", "ops": [c[0]] + c[1:1 + after_step(v)], "oracle_verdict": v[:6000]}, True)
+            continue
         clause = v.split()[1]
         # shrink: the prefix up to the failing step, then drop earlier steps while the same clause still fails at the end
         small, small_v = [c[0]] + c[1:1 + after_step(v)], v
         rv, _ = rebuild_verdicts(ctx, [small], "confirm")
         if not (rv and rv[0].startswith("FAIL " + clause)):
             ctx.count("rebuild.unreproduced-differences")
-            if not unreproduced_is_verdict(ctx, "rebuild:" + clause, c, v):
+            def rerun_rebuild(case, n=after_step(v)):
+                rr, _ = rebuild_verdicts(ctx, [[case[0]] + case[1:1 + n]], "rerun")
+                return rr[0] if rr else None
+            if not unreproduced_is_verdict(ctx, "rebuild:" + clause, c, v, rerun_rebuild):
                 ctx.log("rebuild walk %d: the difference did not show again - not reported" % i)
                 continue
         else:
@@ -305,7 +338,7 @@ def run_rebuild(ctx, nsteps):
         st["agree"] = False
         types = sorted(set(tok.split("/")[1] for tok in small_v.split()[2].replace("%2F", "/").split(",") if tok.count("/") >= 2))
         last = small[-1].split()
-        changed = (last[1] + "-" + last[2].split("-")[0]) if last[0] == "step" else "initial"
+        changed = (last[1] + "-" + obj_class(last[2])) if last[0] == "step" else "initial"
         ctx.violation("rebuild:%s:%s:%s" % (clause, "+".join(types), changed),
                       "the server's partially rebuilt PushContext generates other resources than a from-scratch PushContext of the "
                       "same environment: " + small_v.split(" ||")[0][:300],
@@ -313,33 +346,33 @@ def run_rebuild(ctx, nsteps):
     ctx.log("stream rebuild: %d walks, %d steps, %s" % (st["cases"], st["ops"] - st["cases"], "rebuild = build everywhere" if st["agree"] else "DIFFERENCES"))
 
 
-UNREPRODUCED_LIMIT = 3
+UNREPRODUCED_RERUNS = 4
 
 
-def unreproduced_is_verdict(ctx, fp, case, verdict):
+def unreproduced_is_verdict(ctx, fp, case, verdict, rerun):
     """A difference that persisted for seconds in a quiescent system but did not show again when the history was re-run is a
-    race, not noise: nothing re-triggers it in production either.  One occurrence is logged; the same fingerprint seen
-    UNREPRODUCED_LIMIT times (counted across runs in work/C01/unreproduced.json, and within a run) becomes a verdict."""
-    path = os.path.join(ctx.work, "unreproduced.json")
-    try:
-        seen = json.load(open(path))
-    except (OSError, ValueError):
-        seen = {}
-    e = seen.setdefault(fp, {"count": 0, "last": []})
-    e["count"] += 1
-    e["last"] = case
-    try:
-        with open(path, "w") as f:
-            json.dump(seen, f, indent=1)
-    except OSError:
-        pass
-    return e["count"] >= UNREPRODUCED_LIMIT
+    race, not noise: nothing re-triggers it in production either.  The decision is taken INSIDE this run (no state is kept
+    between runs): the history is run UNREPRODUCED_RERUNS more times; if the same clause fails in at least two of them
+    (three failures of this history in all), or the same fingerprint was unreproduced three times in this run, it is a
+    verdict; otherwise it is logged and counted."""
+    clause = verdict.split()[1]
+    again = 0
+    for _ in range(UNREPRODUCED_RERUNS):
+        rv = rerun(case)
+        if rv and rv.startswith("FAIL " + clause):
+            again += 1
+    seen = ctx.extra.setdefault("unreproduced_fingerprints", {})
+    seen[fp] = seen.get(fp, 0) + 1
+    ctx.log("unreproduced difference %s: failed again in %d of %d further runs of the history; seen %d time(s) in this run"
+            % (fp, again, UNREPRODUCED_RERUNS, seen[fp]))
+    return again >= 2 or seen[fp] >= 3
 
 
-def run_converge(ctx, n, sweep=False, ambient=False, slice_n=0):
+def prepare_converge(ctx, n, sweep=False, ambient=False, slice_n=0):
     """sweep=False: corpus + n random histories. sweep=True: every single-change history of the grammar (targeted search
     when a tie is broken; part of the thorough tier). ambient=True: histories incl. the ambient objects, with a waypoint
-    proxy and a ztunnel-like delta client (PILOT_ENABLE_AMBIENT=true)."""
+    proxy and a ztunnel-like delta client (PILOT_ENABLE_AMBIENT=true). Every history is compared with a cold-started
+    server after EVERY step (`coldeach`), not only at the end.  Returns the prepared job (cases generated, not yet run)."""
     import verif as V
     name = "converge-sweep" if sweep else ("converge-ambient" if ambient else "converge")
     st = {"cases": 0, "ops": 0, "agree": True}
@@ -350,25 +383,61 @@ def run_converge(ctx, n, sweep=False, ambient=False, slice_n=0):
         for f in sorted(os.listdir(cdir)):
             if f.startswith("converge.") and f.endswith(".ops"):
                 case_list += split_cases(ctx.read_lines(os.path.join(cdir, f)))
-        # corpus histories are compared with a cold-started server after EVERY step, not only at the end
-        for c in case_list:
-            if "coldeach" not in c[0].split()[5:]:
-                c[0] += " coldeach"
     ncorpus = len(case_list)
-    g = os.path.join(ctx.work, "%s.gen.ops" % name)
+    tag = name + (str(n) if sweep and not slice_n else "")
+    g = os.path.join(ctx.work, "%s.gen.ops" % tag)
     if os.path.exists(g):
         os.remove(g)
     rc, log = ctx.harness("gen", name, ctx.seed, n, g)
     if rc != 0 or not os.path.exists(g):
         ctx.tie_broken("harness-gen:converge", log)
-        return
+        return None
     generated = split_cases(ctx.read_lines(g))
     if slice_n:
         # a seeded slice of the sweep (every quick run sees a different part of it as the seed varies)
         rnd = random.Random(int(ctx.seed) * 7919 + 13)
         generated = rnd.sample(generated, min(slice_n, len(generated)))
     case_list += generated
-    verdicts, log = converge_verdicts(ctx, case_list, name)
+    for c in case_list:
+        if "coldeach" not in c[0].split()[5:]:
+            c[0] += " coldeach"
+    return {"kind": "converge", "name": name, "tag": tag, "st": st, "cases": case_list, "ncorpus": ncorpus}
+
+
+def execute(ctx, job):
+    """Runs the real servers of a prepared job (may run concurrently with other jobs: own files, own processes)."""
+    if job is None:
+        return
+    if job["kind"] == "converge":
+        job["verdicts"], job["log"] = converge_verdicts(ctx, job["cases"], job["tag"])
+    else:
+        job["verdicts"], job["log"] = rebuild_verdicts(ctx, job["cases"], "run")
+
+
+def execute_all(ctx, jobs):
+    """The jobs' harness processes side by side (each mostly WAITS for quiescence); results are processed one after the
+    other afterwards, so that logging, shrinking and verdicts stay sequential."""
+    jobs = [j for j in jobs if j is not None]
+    if len(jobs) <= 1:
+        for j in jobs:
+            execute(ctx, j)
+        return
+    import concurrent.futures
+    with concurrent.futures.ThreadPoolExecutor(max_workers=len(jobs)) as ex:
+        list(ex.map(lambda j: execute(ctx, j), jobs))
+
+
+def run_converge(ctx, n, sweep=False, ambient=False, slice_n=0):
+    job = prepare_converge(ctx, n, sweep, ambient, slice_n)
+    execute(ctx, job)
+    finish_converge(ctx, job)
+
+
+def finish_converge(ctx, job):
+    if job is None:
+        return
+    name, st, case_list, ncorpus = job["name"], job["st"], job["cases"], job["ncorpus"]
+    verdicts, log = job.get("verdicts"), job.get("log", "")
     if verdicts is None:
         ctx.tie_broken("stream-run:converge", "the converge oracle did not complete:\n" + log[-3000:])
         st["agree"] = False
@@ -407,12 +476,19 @@ def run_converge(ctx, n, sweep=False, ambient=False, slice_n=0):
                 if again == 0:
                     ctx.count("converge.unreproduced-differences")
                     ctx.extra.setdefault("unreproduced_differences", []).append({"ops": c, "verdict": v[:1500]})
-                    if not unreproduced_is_verdict(ctx, fps[0], c, v):
+                    def rerun_converge(case):
+                        rr, _ = converge_verdicts(ctx, [case], "rerun-" + name)
+                        return rr[0] if rr else None
+                    if not unreproduced_is_verdict(ctx, fps[0], c, v, rerun_converge):
                         ctx.log("converge case %d: the difference did not show again in both of 2 more runs - not reported" % i)
                         continue
-                    ctx.log("converge case %d: a difference of this class was unreproduced %d times - reported" % (i, UNREPRODUCED_LIMIT))
-                if not any(x["fingerprint"].startswith("converge:") for x in ctx.violations):
-                    small, small_v = converge_minimise(ctx, c, v)  # shrink the first one only (each run costs seconds)
+                    ctx.log("converge case %d: the difference showed again in later runs of the same history - reported" % i)
+                # shrinking decides whether a difference after a BURST is a recorded finding (its trigger alone) or not, so it is
+                # not skipped; the number of shrunk cases per run is capped (each run of a history costs seconds)
+                shrunk = ctx.extra.setdefault("converge_shrunk", 0)
+                if shrunk < 4:
+                    ctx.extra["converge_shrunk"] = shrunk + 1
+                    small, small_v = converge_minimise(ctx, c, v)
                 else:
                     small, small_v = c, v
                 fps = converge_fingerprints(small, small_v)
@@ -447,6 +523,9 @@ def run(ctx):
         "PILOT_JWT_ENABLE_REMOTE_JWKS istiod, ISTIO_MULTIROOT_MESH off); a changed default shows up as a broken table tie",
         "Spec.Affects (which generator reads which kind) is written by reading the generators; it lists only dependencies the "
         "reading is sure of",
+        "convergence theorems: RebuildOK, ModelFrame (ordinary reasons) and RefreshOK are hypotheses about the real generators / "
+        "updateContext / computeProxyState, validated by the rebuild, edsnarrow and converge streams, not proved; a config change is "
+        "one atomic step of the protocol (ProtocolV3.store_ahead_breaks_convergence shows what the split would need)",
     ]
     ctx.trusted.append("pilot/pkg/xds/zz_verif_c01.go (verif-tagged accessors for the unexported *NeedsPush, filterRelevantUpdates, "
                        "computeProxyState, pushConnection, watchedResourcesByOrder, push queue counters)")
@@ -454,24 +533,31 @@ def run(ctx):
         return
     # other checks run in the same tree and may clean harness/bin while this one is running: rebuild a vanished binary
     raw_harness = ctx.harness
+    import threading
+    build_lock = threading.Lock()
 
     def harness(*a, **k):
-        if not os.path.exists(getattr(ctx, "bin_path", "")):
-            ctx.go_build()
+        with build_lock:
+            if not os.path.exists(getattr(ctx, "bin_path", "")):
+                ctx.go_build()
         return raw_harness(*a, **k)
     ctx.harness = harness
-    if not gen_table(ctx):
-        return
-    proved = ctx.lean_prove(THEOREMS)
-    if not ctx.build_drv():
-        return
-    n = ctx.n(3000, 60000)
-    ctx.diff_stream("needs", n, oracle=oracle)
-    # the narrowing of partial EDS pushes: real EdsGenerator.Generate vs Narrow.lean; oracle: a skipped cluster is unchanged
-    ctx.diff_stream("edsnarrow", ctx.n(250, 12000), oracle=oracle)
-    run_converge(ctx, ctx.n(30, 400))
-    run_converge(ctx, ctx.n(12, 150), ambient=True)
-    tie_broken = (not proved) or not all(ctx.streams.get(x, {}).get("agree", True) for x in ("needs", "edsnarrow"))
+    # The streams on real servers (frame hypothesis, RebuildOK) only need the harness binary and mostly WAIT for quiescence:
+    # their processes run side by side with the table / proof / T-diff part below; their results are processed afterwards.
+    jobs = [prepare_converge(ctx, ctx.n(24, 400)),
+            prepare_converge(ctx, ctx.n(10, 150), ambient=True),
+            prepare_rebuild(ctx, ctx.n(180, 4000))]
+    if ctx.quick():
+        jobs.append(prepare_converge(ctx, -1, sweep=True, slice_n=16))
+    servers = threading.Thread(target=execute_all, args=(ctx, jobs))
+    servers.start()
+    try:
+        tie_broken = not model_part(ctx)
+    finally:
+        servers.join()
+    for job in jobs:
+        if job is not None:
+            (finish_rebuild if job["kind"] == "rebuild" else finish_converge)(ctx, job)
 
     def found():
         return any(v["found"] and v["fingerprint"].startswith("converge") for v in ctx.violations)
@@ -480,8 +566,19 @@ def run(ctx):
     for base in (0, 1, 2):
         if not ctx.quick() or (tie_broken and not found()):
             run_converge(ctx, base, sweep=True)
-    if ctx.quick() and not tie_broken:
-        run_converge(ctx, -1, sweep=True, slice_n=20)
+
+
+def model_part(ctx):
+    """Table tie, proofs, T-diff streams and the end-to-end stream. Returns False when a tie is broken."""
+    if not gen_table(ctx):
+        return False
+    proved = ctx.lean_prove(THEOREMS)
+    if not ctx.build_drv():
+        return False
+    n = ctx.n(3000, 60000)
+    ctx.diff_stream("needs", n, oracle=oracle)
+    # the narrowing of partial EDS pushes: real EdsGenerator.Generate vs Narrow.lean; oracle: a skipped cluster is unchanged
+    ctx.diff_stream("edsnarrow", ctx.n(250, 12000), oracle=oracle)
     # the end-to-end stream of harness/e2e (notes/E2E.md): real server, real generators, SotW and delta clients
     e2e_common.run(ctx, "c01", ctx.n(12, 200))
     # the property-level oracle (order independence, monotonicity in keys and under merging, Forced) runs on every generated
@@ -491,7 +588,7 @@ def run(ctx):
         if os.path.exists(g):
             for f in oracle_file(ctx, stream, g, limit=3):
                 ctx.violation(f[0], f[1], f[2], True)
-    run_rebuild(ctx, ctx.n(180, 4000))
+    return bool(proved) and all(ctx.streams.get(x, {}).get("agree", True) for x in ("needs", "edsnarrow"))
 
 
 def replay(ctx, path):
@@ -543,31 +640,44 @@ MANIFEST = {
     "level_text": ("Lean 4 proof in two layers. (a) The push-decision logic (DefaultProxyNeedsPush/filterRelevantUpdates/"
                    "proxyDependentOnConfig, SidecarScope.DependsOnConfig, the per-type skip tables and cds/eds/lds/rds/nds/ecds/sds/"
                    "pcdsNeedsPush, canSendPartialFullPushes, waypointNeedsPush, computeProxyState, pushConnection as a whole incl. the "
-                   "refresh-before-filter order, the narrowing of partial EDS pushes, PushOrder) is modelled branch for branch; theorems "
-                   "give closed forms for all key sets, independence of Go's map order, monotonicity incl. merged requests, "
-                   "narrow_skip_sound, and skip_sound_table_partial (wherever the real code skips, the hand-written dependency relation "
-                   "Affects is false) with skip_sound_table_witness for the one recorded exception. The model equals the real functions "
-                   "on the whole single-key domain (386k evaluations regenerated from /repo on every run, decide +kernel). (b) "
-                   "convergence (ProtocolV2): over an abstract generator, an abstract PARTIALLY REBUILT snapshot and a decision that reads "
-                   "the world a proxy was last synced at, for every finite history and every batching/interleaving every quiescent state "
-                   "has every client holding gen(build finalWorld) - what a fresh control plane generates - provided RebuildOK (partial "
-                   "rebuild = from-scratch build) and SkipOK/ModelFrame (skips are sound for the generators); skip_preserves; "
-                   "convergence_model instantiates the decision with the modelled one over configuration-dependent proxy views and "
-                   "reduces multi-key merged requests to single-key decisions (convergence_model_static_view is the weaker first "
-                   "version for fixed views). RebuildOK and ModelFrame for the REAL code are validated, not proved: rebuild stream "
-                   "(real updateContext vs createNewContext through the real generators), edsnarrow stream, and long-lived clients vs "
-                   "fresh clients vs a cold-started second server after histories over every config kind of the quantifier."),
+                   "refresh-before-filter order, the narrowing of partial EDS pushes, the WDS / WorkloadAuthorization skips, PushOrder) is "
+                   "modelled branch for branch; theorems give closed forms for all key sets, independence of Go's map order, monotonicity "
+                   "incl. merged requests, narrow_skip_sound, and skip_sound_table_partial (wherever the real code skips, the hand-written "
+                   "dependency relation Affects is false) with skip_sound_table_witness for the one recorded exception. The model equals "
+                   "the real functions on the whole single-key domain (386k evaluations regenerated from /repo on every run, decide "
+                   "+kernel). (b) convergence (ProtocolV2 / ProtocolV2On): over an abstract generator, an abstract PARTIALLY REBUILT "
+                   "snapshot and a decision that reads the world a proxy was last synced at, for every finite history and every "
+                   "batching/interleaving of the model's steps every quiescent state has every client holding gen(build finalWorld) - "
+                   "what a fresh control plane generates - provided RebuildOK (partial rebuild = from-scratch build) and SkipOK/ModelFrame "
+                   "(skips are sound for the generators); skip_preserves. convergence_model instantiates the decision with the modelled "
+                   "one over configuration-dependent proxy views, for histories of ordinary changes (no headless-endpoint marker "
+                   "events), and reduces multi-key merged requests to single-key decisions; convergence_model_refresh adds the "
+                   "computeProxyState refresh decisions under RefreshOK; InstantiationExample applies the theorem to a concrete "
+                   "generator that reads a ServiceEntry and a DestinationRule (non-vacuity: every hypothesis holds, the client ends with "
+                   "the new content) and shows the unrestricted frame false. convergence_wds / narrowed_eq_full: AddressesUpdated as "
+                   "an instance of the protocol, skip sound without frame hypothesis, per-address narrowing exact. RebuildOK, ModelFrame "
+                   "and RefreshOK for the REAL code are validated, not proved: rebuild stream (real updateContext vs createNewContext "
+                   "through the real generators, without and with the server's xDS cache), edsnarrow stream, and long-lived clients vs "
+                   "fresh clients vs a cold-started second server after EVERY step of histories over every config kind of the quantifier "
+                   "(incl. readiness, cross-registry selection, pod relabels, exportTo annotations, MeshConfig)."),
     "level_note": ("Partial: the generators, the rebuilt indexes and the xDS cache are not modelled (covered by the rebuild / edsnarrow / "
                    "converge / e2e differentials: sidecar, router, waypoint, ztunnel-like clients, CDS/EDS/LDS/RDS/NDS/WDS/WAUTH, SotW + "
-                   "delta in e2e); of WDS/WorkloadAuthorization only the skip decisions are modelled. Trusted: Lean kernel + {propext, Quot.sound}; "
-                   "the hand-written model (tied by the exhaustive table and the needs/edsnarrow streams); Spec.Affects (written from the "
-                   "generators, a cross-check of the table only); pilot/pkg/xds/zz_verif_c01.go; feature flags at defaults. Two defects "
-                   "found and fixed in /repo (3f2fe0c, 7cce3d7); four known findings (stale SAN after scale-to-zero, stale disable_mx in "
-                   "ambient interop, EDS not pushed when a Sidecar/VS switches the service of a host, provider services outside the "
-                   "per-proxy dependency set), each recognised by its input class and field, so that regressions touching the same field "
-                   "are still violations."),
+                   "delta in e2e). LIMIT of the protocol theorem: a config change is ONE atomic step (store write + event to the "
+                   "debouncer); in istiod the store and the registries run ahead of event delivery, and ProtocolV3."
+                   "store_ahead_breaks_convergence proves that with the two split the same hypotheses no longer give convergence (the "
+                   "defect class of /repo 32766a2) - on the real code that interleaving is only covered by the gate-controlled e2e stream "
+                   "and C02/C03. Histories with headless-endpoint marker events are outside convergence_model (table rows + converge "
+                   "histories only). The model's previous scope is the scope at the last sync (istiod: before the last reset; the real "
+                   "filter keeps at least as much). Trusted: Lean kernel + {propext, Quot.sound}; the hand-written model (tied by the "
+                   "exhaustive table and the needs/edsnarrow streams); Spec.Affects (written from the generators, a cross-check of the "
+                   "table only); pilot/pkg/xds/zz_verif_c01.go; feature flags at defaults. Two defects found and fixed in /repo "
+                   "(3f2fe0c, 7cce3d7); five known findings (stale SAN after scale-to-zero, stale disable_mx in ambient interop, EDS "
+                   "not pushed when a Sidecar/VS switches the service of a host, provider services outside the per-proxy dependency "
+                   "set, DNS ServiceEntry keeps the cluster of its last removed workload - a fix for the last one was reverted because "
+                   "an existing unit test pins the behaviour), each recognised by its TRIGGER and field, so that other defects with "
+                   "the same symptom are still violations."),
     "technique": ("Lean 4 theorems over an exact model of the push-decision logic and an abstract convergence protocol with partial "
                   "rebuild + exhaustive generated decision table (decide +kernel) + differential correspondence + "
-                  "updateContext-vs-createNewContext and cold-start differentials on real servers"),
+                  "updateContext-vs-createNewContext, cache-vs-no-cache and cold-start differentials on real servers"),
     "design_ref": "DESIGN.md section 5 C01",
 }
